@@ -51,6 +51,8 @@ type caseObs struct {
 //	hold / free      close / open the store's commit gate
 //	stop             StopAndWait (not awaited: the schedule goes on)
 //	force            Stop(force)
+//	stopall          graceful shutdown of the engine: StopAll (not awaited)
+//	stopallforce     forced shutdown: v2 StopAll(force=true); v1 StopAll then Stop(force)
 //	w                wait until the log is quiet
 //
 // a trailing "!" means: do not wait for quiet after the step.
@@ -62,7 +64,7 @@ func play(c caseIn) caseObs {
 		return o
 	}
 	w := sys.W
-	var stopDone, forceDone <-chan struct{}
+	var stopDone, forceDone, allDone <-chan struct{}
 	stopped, forced := false, false
 	commitsAtStop := 1 << 30
 	heldAtEnd := false
@@ -116,10 +118,15 @@ func play(c caseIn) caseObs {
 				_, stopDone = sys.Call("stopwait")
 				stopped = true
 			}
-		case "force":
+		case "force", "stopallforce":
 			if !forced {
-				_, forceDone = sys.Call("force")
+				_, forceDone = sys.Call(f[0])
 				forced = true
+			}
+		case "stopall":
+			// graceful shutdown of the engine (not awaited: v2 waits for the batch in flight)
+			if allDone == nil {
+				_, allDone = sys.Call("stopall")
 			}
 		case "w":
 			quiet()
@@ -138,7 +145,7 @@ func play(c caseIn) caseObs {
 
 	switch c.Prop {
 	case "c12":
-		finishForce(sys, c, &o, stopDone, forceDone, stopped, forced)
+		finishForce(sys, c, &o, stopDone, forceDone, allDone, stopped, forced)
 	default:
 		finishGraceful(sys, c, &o, stopDone, stopped)
 	}
@@ -179,7 +186,7 @@ func finishGraceful(sys *stopx.Sys, c caseIn, o *caseObs, stopDone <-chan struct
 // finishForce: issue the force stop if the schedule did not (gates stay as they are: blocked
 // plugins stay blocked), wait for the run to end, watch for an automatic restart, then release
 // everything and start the pipeline again to see where it resumes.
-func finishForce(sys *stopx.Sys, c caseIn, o *caseObs, stopDone, forceDone <-chan struct{}, stopped, forced bool) {
+func finishForce(sys *stopx.Sys, c caseIn, o *caseObs, stopDone, forceDone, allDone <-chan struct{}, stopped, forced bool) {
 	w := sys.W
 	if !forced {
 		_, forceDone = sys.Call("force")
@@ -201,6 +208,11 @@ func finishForce(sys *stopx.Sys, c caseIn, o *caseObs, stopDone, forceDone <-cha
 			o.Hung = "stopwait-under-force"
 		}
 	}
+	if allDone != nil && o.Terminated {
+		if !stopx.WaitCh(allDone, 12*time.Second) {
+			o.Hung = "stopall-under-force"
+		}
+	}
 	if !o.Terminated {
 		o.Note = "run did not end after the force stop"
 		w.Log(stopx.Ev{K: "noterm"})
@@ -212,6 +224,10 @@ func finishForce(sys *stopx.Sys, c caseIn, o *caseObs, stopDone, forceDone <-cha
 	// any automatic restart would happen within the recovery back-off (1..5 ms)
 	time.Sleep(25 * time.Millisecond)
 	w.Log(stopx.Ev{K: "watched", X: sys.Status()})
+	// a process restart: fresh services on the same store; Init must not bring the pipeline back
+	if err := sys.Reboot(); err != nil {
+		o.Note = "reboot: " + err.Error()
+	}
 	w.Release()
 	w.Settle(300*time.Microsecond, 20*time.Millisecond)
 
@@ -374,6 +390,10 @@ func evsCoq(evs []stopx.Ev) string {
 			out = append(out, "ENoTerm")
 		case "watched":
 			out = append(out, "EWatched "+stCoq(e.X))
+		case "boot":
+			out = append(out, "EBoot")
+		case "booted":
+			out = append(out, "EBooted "+stCoq(e.X))
 		case "restart":
 			out = append(out, "ERestart "+snapCoq(e.Snap))
 		case "panic":
@@ -389,7 +409,7 @@ func callCoq(x string) string {
 		return "KStart"
 	case "stopwait":
 		return "KStopWait"
-	case "force":
+	case "force", "stopallforce":
 		return "KForce"
 	case "wait":
 		return "KWait"
@@ -529,6 +549,17 @@ func directedAckInFlight(t stopx.Topo, k int) []string {
 	return sched
 }
 
+// directedShutdown: records are in flight at destinations that do not answer; the engine is shut
+// down gracefully (StopAll) and cannot drain; then the pipeline is force-stopped. direct = the
+// forced shutdown call instead.
+func directedShutdown(n int, direct bool) []string {
+	sched := []string{"start", fmt.Sprintf("e:s1:%d", n), "w"}
+	if direct {
+		return append(sched, "stopallforce")
+	}
+	return append(sched, "stopall!", "w", "force")
+}
+
 var directedTopos = []stopx.Topo{
 	{Sources: 1, Dests: 1},
 	{Sources: 1, Dests: 2},
@@ -660,6 +691,12 @@ func main() {
 				st += "!"
 			}
 			sched := withStopAt(base, p, st)
+			if prop == "c12" && i%5 == 4 {
+				dt := directedTopos[r.Intn(len(directedTopos))]
+				dt.Engine = t.Engine
+				emit(w, caseIn{Prop: prop, Topo: dt, Sched: directedShutdown(r.Range(1, 3), r.Bool())})
+				continue
+			}
 			if prop == "c12" && r.Chance(1, 4) {
 				// force stop during a graceful stop
 				q := r.Range(1, p)
